@@ -14,6 +14,7 @@ import Mrpro.Model.KDataOps
 import Mrpro.Model.MoveData
 import Mrpro.Model.Dcf
 import Mrpro.Model.Dcf2d
+import Mrpro.Model.WaveletLayout
 import Mrpro.Model.Autograd
 open Lean M M.Proto
 
@@ -422,6 +423,9 @@ def handle (j : Json) : Except String Json := do
       let (nk2, nk1) := shapeK kept
       pure (Json.mkObj [("order", natsJson (ordered.map (·.id))), ("n_k2", Json.num (JsonNumber.fromNat nk2)), ("n_k1", Json.num (JsonNumber.fromNat nk1)),
                         ("ignore_mask", Json.num (JsonNumber.fromNat ignoreMask))])
+  | "wavelet_shapes" =>
+      let L ← getNat j "L"; let dom ← getNats j "domain"; let level ← getNat j "level"
+      pure (Json.mkObj [("shapes", Json.arr ((Wavelet.coefficientsShape L dom level).map natsJson).toArray)])
   | "dcf_glue" =>
       -- dcf_2d3d_voronoi around the Voronoi volumes: positions (one list of d rationals per sample) and the volumes of the unique positions
       let pts ← j.getObjValAs? (Array (Array String)) "pts"
